@@ -50,17 +50,17 @@ PROPS["C13"] = {
         H("k13_5_nat_roundtrip_u16range", timeout=1500, mem_gb=12, unwind=5, unwindset=nat_rules(6, 17)),
         H("k13_5_nat_u16_result", timeout=1500, mem_gb=12, unwind=5, unwindset=nat_rules(6, 18)),
         H("k13_5_nat_usize_result", timeout=1500, mem_gb=12, unwind=5, unwindset=nat_rules(6, 17)),
-        H("k13_5_nat_roundtrip_u32range", tiers=("thorough",), timeout=3000, mem_gb=16, unwind=5,
+        H("k13_5_nat_roundtrip_u32range", tiers=("thorough",), timeout=7200, mem_gb=40, core=False, unwind=5,
           unwindset=nat_rules(7, 33)),
-        H("k13_5_nat_too_large_rejected", tiers=("thorough",), timeout=3000, mem_gb=16, core=False, unwind=5,
+        H("k13_5_nat_too_large_rejected", tiers=("thorough",), timeout=7200, mem_gb=40, core=False, unwind=5,
           unwindset=nat_rules(7, 35)),
         H("k13_6_canon_k0", timeout=600, unwind=5, unwindset=nat_rules(3, 3)),
         H("k13_6_canon_k1", timeout=600, unwind=5, unwindset=nat_rules(4, 3)),
         H("k13_6_canon_k2", timeout=600, unwind=5, unwindset=nat_rules(5, 5)),
         H("k13_6_canon_k3", timeout=1500, mem_gb=12, unwind=5, unwindset=nat_rules(6, 17)),
-        H("k13_6_canon_k4", tiers=("thorough",), timeout=3000, mem_gb=16, unwind=5, unwindset=nat_rules(7, 33)),
-        H("k13_6_canon_k5", tiers=("thorough",), timeout=3000, mem_gb=16, unwind=5, unwindset=nat_rules(8, 33)),
-        H("k13_6_canon_k6", tiers=("thorough",), timeout=3000, mem_gb=16, core=False, unwind=5,
+        H("k13_6_canon_k4", tiers=("thorough",), timeout=7200, mem_gb=40, core=False, unwind=5, unwindset=nat_rules(7, 33)),
+        H("k13_6_canon_k5", tiers=("thorough",), timeout=7200, mem_gb=40, core=False, unwind=5, unwindset=nat_rules(8, 33)),
+        H("k13_6_canon_k6", tiers=("thorough",), timeout=7200, mem_gb=40, core=False, unwind=5,
           unwindset=nat_rules(9, 33)),
     ],
 }
